@@ -65,3 +65,21 @@ Example transport_agree :
   mk_snap63 10 [0x00017f80fffe10%uint63; 0x20304000000000%uint63] 3 [0x61623b00000000%uint63]
   = mk_snap "00017f80fffe10203040"%string "ab;"%string.
 Proof. vm_compute. reflexivity. Qed.
+
+(* ------------------------------------------------------------------------------------------
+   Correspondence of the ALIAS part of the model: [ret_alias] is the set of parameters (ids, as Z) the
+   name r -- the return slot of the driver -- may refer to according to the verified analysis
+   (Alias.alias_sound); [-1] when the obligation failed (no prediction).  It is evaluated once per
+   driver; the dynamic cases carry the value.  v_dynamic_alias sets the "model <> implementation" bit
+   when the real return value shares memory with an argument outside the predicted set. *)
+Definition ret_alias (sk : skeleton) (ps : list var) (r : var) : list Z :=
+  match analyze_r default_fuel sk (init_amap ps) with
+  | AOk a => map Zpos (lookup a r)
+  | _ => [(-1)%Z]
+  end.
+
+Definition v_dynamic_alias (static_ok : bool) (ret_static observed : list Z)
+    (args : list ((Z * list int * Z * list int) * (Z * list int * Z * list int))) : Z :=
+  let v := v_dynamic63 static_ok args in
+  let covered := forallb (fun p => existsb (Z.eqb p) ret_static) observed in
+  if static_ok && negb covered then (if Z.odd v then v else v + 1) else v.
